@@ -137,8 +137,12 @@ CLAIMS = {
          "granularity: each scenario runs under sys.settrace with a directory snapshot at every executed "
          "line of darr/*.py; the sequence of distinct on-disk states must equal the model's "
          "Crash.trace_states (so a reordering, preallocation or extra write breaks the correspondence); "
-         "every observed state and synthesised torn variants are materialised and opened with Darr.",
-         "Coq proof over an effect-logging model with an inductive crash-state relation + traced state sequences compared in coqc",
+         "every observed state and synthesised torn variants are materialised and opened with Darr. "
+         "Second tie, by translation: the control skeletons of the nine functions that change files are "
+         "regenerated from the source on every run (Gen_effects.v) and it is proved that the effect log of "
+         "every model call is, kind by kind and in order, a run the present source's skeleton admits "
+         "(C17_*_order_from_source).",
+         "Coq proof over an effect-logging model with an inductive crash-state relation + effect order proved against control skeletons translated from source + traced state sequences compared in coqc",
          "6.C17"),
  'C18': ("kernel-checked over Json.v, which follows _read_arraydescr / arrayinfotodtype / "
          "_check_arrayinfoconsistency check by check on generic JSON values: if Array() succeeds then the "
